@@ -146,7 +146,9 @@ def call_ext(I: Any, name: str, args: List[Term], kwargs: Dict[str, Term], st: A
                 return T.seq("raw", tuple(a for x in items for a in x[1]))
             if items is not None and len(items) == 1 and is_int_term(items[0]) and not is_c(items[0]):
                 # bytes((x,)) is the single byte x (ValueError outside 0..255): as text its hex is '{:02x}'.format(x)
-                st.may_raise("ValueError", ("outofrange", items[0], c(0), c(255)), where)
+                rng_ = T.int_range(items[0])
+                if not (rng_ is not None and rng_[0] is not None and rng_[1] is not None and 0 <= rng_[0] and rng_[1] <= 255):
+                    st.may_raise("ValueError", ("outofrange", items[0], c(0), c(255)), where)
                 return ("seq", "raw", (("fmt", "02x", items[0]),))
             if items is not None and items and all(is_c(x) and isinstance(x[1], int) and 0 <= x[1] <= 255 or byte_atom_of(x) is not None for x in items):
                 return T.seq("raw", tuple(("L", "%02x" % x[1]) if is_c(x) else byte_atom_of(x) for x in items))
@@ -272,6 +274,9 @@ def call_ext(I: Any, name: str, args: List[Term], kwargs: Dict[str, Term], st: A
         if s is None:
             return top("wrap of non-text")
         return ("chunks", s, n)
+    if name == "io.BytesIO" and len(args) == 1 and not kwargs and T.to_seq(args[0]) is not None and T.to_seq(args[0])[1] in ("b", "raw"):
+        from .interp import HeapObj
+        return st.alloc(HeapObj("obj", None, {"buf": args[0], "pos": c(0)}, [], False, "bytesio", True))
     if name == "builtins.open":
         st.may_raise("OSError", ("ext", "open fails", st.fresh("ext")), where)
         return I.external_call("open", args, kwargs, st, ctx, node, awaited, ("sym", st.fresh("file"), ("extobj", "file")))
@@ -366,6 +371,20 @@ def call_ext(I: Any, name: str, args: List[Term], kwargs: Dict[str, Term], st: A
                 return st.alloc(HeapObj("list", None, {}, [dv for _, dv in pairs_c]))
             return ("condlist", tuple(pairs_c))
         return I.external_call(name, args, kwargs, st, ctx, node, awaited, opaque=True)
+    if name == "builtins.iter" and len(args) == 2 and not kwargs and is_c(args[1]) and args[1][1] in (b"", ""):
+        # iter(partial(stream.read, n), b""): the consecutive n-chunks of the rest of an in-memory stream.  The
+        # iterator is lazy, so where the stream stands afterwards depends on how far it is consumed: the stream is
+        # closed for the model (any later use of it is "not modelled")
+        f = args[0]
+        if f[0] == "partialobj" and f[1][0] == "biometh" and f[1][2] == "read" and len(f[2]) == 1 and is_c(f[2][0]) and isinstance(f[2][0][1], int) and not isinstance(f[2][0][1], bool) and f[2][0][1] > 0:
+            ho = st.heap[f[1][1][1]]
+            buf, pos = ho.fields["buf"], ho.fields["pos"]
+            if is_c(pos) and isinstance(pos[1], int):
+                rest = buf if pos[1] == 0 else slice_value(I, buf, pos, c(None), c(None), st, ctx, node)
+                seq = T.to_seq(rest)
+                if seq is not None and not is_top(rest) and type(args[1][1]) is (bytes if seq[1] in ("b", "raw") else str):
+                    ho.fields["pos"] = c(None)
+                    return ("chunks", seq, f[2][0][1])
     if name == "builtins.next" and 1 <= len(args) <= 2 and not kwargs:
         src = args[0]
         default = args[1] if len(args) == 2 else None
@@ -395,7 +414,7 @@ def call_ext(I: Any, name: str, args: List[Term], kwargs: Dict[str, Term], st: A
             if default is not None:
                 return default
             st.may_raise("StopIteration", c(True), where)
-            return top("next() of an empty iterator")
+            return top("never: next() of an empty iterator")
         return I.external_call(name, args, kwargs, st, ctx, node, awaited, opaque=True)
     if name == "builtins.reversed" and len(args) == 1 and not kwargs:
         if _textlike(args[0]) and T.to_seq(args[0]) is not None and T.to_seq(args[0])[1] in ("raw", "b"):
@@ -575,7 +594,7 @@ def struct_pack(I: Any, args: List[Term], st: Any, ctx: Any, node: ast.AST) -> T
     order, items = parsed
     if len(items) != len(args) - 1:
         st.may_raise("struct.error", c(True), where)
-        return top("struct.pack arity")
+        return top("never: struct.pack arity")
     atoms: List[Term] = []
     for (ch, size), val in zip(items, args[1:]):
         val = int_view(val)
@@ -640,6 +659,8 @@ def is_int_term(v: Term) -> bool:
     if v[0] == "app":
         if v[1] == "sum" and len(v) == 3 and isinstance(v[2], tuple) and v[2][:1] == ("map",) and is_int_term(v[2][1]):
             return True   # a sum of integers
+        if v[1] in ("and", "or", "xor") and len(v) == 4 and is_int_term(v[2]) and is_int_term(v[3]):
+            return True
         return v[1] in ("int", "crc_hqx", "binascii.crc_hqx", "floordiv_int", "sum_int")
     if v[0] == "eattr":
         return bool(len(v) > 3 and v[3] and all(isinstance(a, int) for a in v[3]))
@@ -664,7 +685,7 @@ def to_int(I: Any, args: List[Term], kwargs: Dict[str, Term], st: Any, ctx: Any,
                 return c(int(txt, b if isinstance(b, int) else 10))
             except ValueError:
                 st.may_raise("ValueError", c(True), where)
-                return top("int() of invalid literal")
+                return top("never: int() of invalid literal")
         # empty / short text: sources without a guaranteed length may yield '' -> ValueError
         short = short_condition(s, st)
         if b == 16:
@@ -763,6 +784,15 @@ def arith(op: str, a: Term, b: Term) -> Term:
             return Lin.of(b).scale(a[1]).term()
         if is_c(b) and isinstance(b[1], (int, float)):
             return Lin.of(a).scale(b[1]).term()
+    if op == "and" and ((is_c(a) and isinstance(a[1], int) and not isinstance(a[1], bool)) != (is_c(b) and isinstance(b[1], int) and not isinstance(b[1], bool))):
+        k_, x_ = (a, b) if is_c(a) else (b, a)
+        if x_[0] == "app" and x_[1] == "and" and len(x_) == 4:
+            # nested constant masks fold: (M & y) & k == (M & k) & y
+            for m_, y_ in ((x_[2], x_[3]), (x_[3], x_[2])):
+                if is_c(m_) and isinstance(m_[1], int) and not isinstance(m_[1], bool):
+                    return arith("and", c(m_[1] & k_[1]), y_)
+        if k_[1] == 0:
+            return c(0)
     # masks and shifts of non-negative integers are remainders and quotients by powers of two
     if op in ("and", "rshift") and is_c(b) and isinstance(b[1], int) and not isinstance(b[1], bool) and is_int_term(a):
         ra = T.int_range(a)
@@ -916,7 +946,7 @@ def index_value(I: Any, base: Term, idx: Term, st: Any, ctx: Any, node: ast.AST)
         if -len(r_) <= i < len(r_):
             return c(r_[i])
         st.may_raise("IndexError", c(True), where)
-        return top("range index out of range")
+        return top("never: range index out of range")
     if base[0] == "mapobj" and len(base) == 4 and base[3] == "list":
         # list built by a comprehension over a symbolic collection: an element of it
         st.may_raise("IndexError", ("emptyindex", base, idx), where)
@@ -930,7 +960,7 @@ def index_value(I: Any, base: Term, idx: Term, st: Any, ctx: Any, node: ast.AST)
             if -len(base[1]) <= i < len(base[1]):
                 return base[1][i]
             st.may_raise("IndexError", c(True), where)
-            return top("index out of range")
+            return top("never: index out of range")
         if is_int_term(idx) and base[1]:
             # constant table indexed by a symbolic position: a lookup by position (negative indices excluded by the guard)
             st.may_raise("IndexError", ("indexrange", idx, c(len(base[1]))), where)
@@ -944,7 +974,7 @@ def index_value(I: Any, base: Term, idx: Term, st: Any, ctx: Any, node: ast.AST)
                 if -len(ho.items) <= i < len(ho.items):
                     return ho.items[i]
                 st.may_raise("IndexError", c(True), where)
-                return top("index out of range")
+                return top("never: index out of range")
             st.may_raise("IndexError", ("indexrange", idx, c(len(ho.items))), where)
             return ("item", ("tuple", tuple(ho.items)), idx)
         if ho.kind == "dict" and not ho.symbolic:
@@ -976,7 +1006,7 @@ def index_value(I: Any, base: Term, idx: Term, st: Any, ctx: Any, node: ast.AST)
         return ("item", base, idx)
     if base[0] in ("mapobj", "filterobj", "map"):
         st.may_raise("TypeError", c(True), where)
-        return top("subscript of iterator")
+        return top("never: subscript of iterator")
     return top(f"subscript of {T.show(base)}")
 
 
@@ -993,7 +1023,7 @@ def dict_lookup(I: Any, items: List[Tuple[Term, Term]], key: Term, st: Any, wher
             maybe.append((k2, v))
     if not maybe:
         st.may_raise("KeyError", c(True), where)
-        return top(f"key {T.show(key)} not in {desc}")
+        return top(f"never: key {T.show(key)} not in {desc}")
     keys = tuple(k for k, _ in maybe)
     cond = key_missing_cond(I, key2, keys)
     st.may_raise("KeyError", cond, where)
@@ -1165,10 +1195,10 @@ def format_value(I: Any, x: Term, spec: str, st: Any, ctx: Any, node: ast.AST) -
             return c(format(x[1], spec))
         except Exception:  # noqa: BLE001
             st.may_raise("ValueError", c(True), where)
-            return top("bad format spec")
+            return top("never: bad format spec")
     if _textlike(x) and re.fullmatch(r"0?\d*[xXdb]", spec):
         st.may_raise("ValueError", c(True), where)
-        return top("numeric format of text")
+        return top("never: numeric format of text")
     return ("seq", "s", (("fmt", spec, x),))
 
 
@@ -1248,7 +1278,7 @@ def str_format(I: Any, tmpl: str, args: List[Term], kwargs: Dict[str, Term], st:
         parsed = list(string.Formatter().parse(tmpl))
     except ValueError:
         st.may_raise("ValueError", c(True), where)
-        return top("malformed format template")
+        return top("never: malformed format template")
     for lit, fname, spec, conv in parsed:
         if lit:
             out = T.concat(out, c(lit))
@@ -1266,12 +1296,12 @@ def str_format(I: Any, tmpl: str, args: List[Term], kwargs: Dict[str, Term], st:
         if isinstance(idx, int):
             if idx >= len(args):
                 st.may_raise("IndexError", c(True), where)
-                return top("format argument missing")
+                return top("never: format argument missing")
             val = args[idx]
         else:
             if idx not in kwargs:
                 st.may_raise("KeyError", c(True), where)
-                return top("format keyword missing")
+                return top("never: format keyword missing")
             val = kwargs[idx]
         spec = spec or ""
         if "{" in spec:
@@ -1315,7 +1345,7 @@ def percent_format(I: Any, tmpl: Term, arg: Term, st: Any, ctx: Any, node: ast.A
             continue
         if not vals:
             st.may_raise("TypeError", c(True), ctx.loc(node))
-            return top("not enough arguments for format string")
+            return top("never: not enough arguments for format string")
         v = vals.pop(0)
         zero, width, conv = m.group(2), m.group(3), m.group(4)
         if conv == "s":
@@ -1331,7 +1361,7 @@ def percent_format(I: Any, tmpl: Term, arg: Term, st: Any, ctx: Any, node: ast.A
         return top("%-formatting directive not modelled")
     if vals:
         st.may_raise("TypeError", c(True), ctx.loc(node))
-        return top("not all arguments converted")
+        return top("never: not all arguments converted")
     if pos < len(text):
         out = T.concat(out, c(text[pos:]))
     return merge_strftime(out)
@@ -1340,6 +1370,14 @@ def percent_format(I: Any, tmpl: Term, arg: Term, st: Any, ctx: Any, node: ast.A
 def pad(s: Term, width: Term, fill: Term, side: str, I: Any = None, st: Any = None, ctx: Any = None, node: Any = None) -> Term:
     w = as_const_int(width)
     f = fill[1] if is_c(fill) and isinstance(fill[1], str) else None
+    if not isinstance(w, int) and I is not None and st is not None and is_c(fill) and isinstance(fill[1], (str, bytes)) and len(fill[1]) == 1:
+        # x.ljust(len(x) - k, fill) with k >= 0 leaves x as it is
+        try:
+            d = (Lin.of(width) - Lin.of(length(I, s, st, ctx, node))).term()
+        except Exception:
+            d = None
+        if d is not None and is_c(d) and isinstance(d[1], int) and d[1] <= 0:
+            return s
     if s[1] in ("raw", "b") and is_c(fill) and isinstance(fill[1], bytes) and len(fill[1]) == 1 and isinstance(w, int):
         # bytes.ljust / rjust: width counts bytes
         if s[1] == "b" and fill[1].isascii():
@@ -1442,6 +1480,9 @@ def call_method(I: Any, recv: Term, name: str, args: List[Term], kwargs: Dict[st
             return r
     if recv[0] == "obj":
         ho = st.heap[recv[1]]
+        if ho.name.startswith("memo:") and name not in ("get", "keys", "values", "items", "copy", "index", "count", "__contains__", "__getitem__", "__len__", "__iter__",
+                                                        "union", "intersection", "difference", "issubset", "issuperset", "isdisjoint"):
+            I.frozen_guard(recv, st, f"the receiver of .{name}()", where)
         if ho.kind == "list" and not ho.symbolic:
             if name == "append":
                 ho.items.append(args[0])
@@ -1461,7 +1502,7 @@ def call_method(I: Any, recv: Term, name: str, args: List[Term], kwargs: Dict[st
                     return top("pop with symbolic index")
                 if not ho.items or not (-len(ho.items) <= i < len(ho.items)):
                     st.may_raise("IndexError", c(True), where)
-                    return top("pop from empty list")
+                    return top("never: pop from empty list")
                 return ho.items.pop(i)
             if name == "sort":
                 if all(is_c(x) for x in ho.items):
@@ -1648,7 +1689,7 @@ def text_method(I: Any, s: Term, name: str, args: List[Term], kwargs: Dict[str, 
                     return c(bytes.fromhex("".join(a[1] for a in s[2])).decode())
                 except Exception:  # noqa: BLE001
                     st.may_raise("UnicodeDecodeError", c(True), where)
-                    return top("undecodable literal")
+                    return top("never: undecodable literal")
             st.may_raise("UnicodeDecodeError", ("invalid", "utf-8", s), where)
             return ("seq", "s", (("txt", ("decode", s[2])),))
         return top("decode of str")
